@@ -65,6 +65,53 @@ def main_in_pool_join():
     return in_join and in_pool, in_queue_join, names[:6]
 
 
+class RaiseSite:
+    """Where was the KeyboardInterrupt first raised in the calling thread? (sys.monitoring RAISE event.) The open known finding D6 is
+    keyed by this call site - threading.Condition.__enter__ entered from queue.py - and not merely by the shape of the resulting hang."""
+
+    TOOL = 2
+
+    def __init__(self):
+        self.site = None
+        self.main = threading.main_thread().ident
+
+    def _cb(self, code, offset, exc):
+        if self.site is None and isinstance(exc, KeyboardInterrupt) and threading.get_ident() == self.main:
+            caller = None
+            try:
+                fr = sys._getframe(1)
+                while fr is not None and fr.f_code is not code:
+                    fr = fr.f_back
+                if fr is not None and fr.f_back is not None:
+                    caller = (fr.f_back.f_code.co_name, os.path.basename(fr.f_back.f_code.co_filename))
+            except Exception:
+                pass
+            self.site = (code.co_name, os.path.basename(code.co_filename), caller)
+
+    def __enter__(self):
+        m = sys.monitoring
+        try:
+            m.use_tool_id(self.TOOL, "vmon-raise-site")
+            m.register_callback(self.TOOL, m.events.RAISE, self._cb)
+            m.set_events(self.TOOL, m.events.RAISE)
+            self.on = True
+        except ValueError:
+            self.on = False
+        return self
+
+    def __exit__(self, *a):
+        if self.on:
+            m = sys.monitoring
+            m.set_events(self.TOOL, 0)
+            m.register_callback(self.TOOL, m.events.RAISE, None)
+            m.free_tool_id(self.TOOL)
+        return False
+
+    def in_condition_enter_of_queue(self):
+        s_ = self.site
+        return bool(s_ and s_[0] == "__enter__" and s_[1] == "threading.py" and s_[2] and s_[2][1] == "queue.py")
+
+
 class Interrupter:
     """Per-run state machine: open -> (call k) closed+signal sent -> (quiescent & main joined) reopened."""
 
@@ -86,6 +133,7 @@ class Interrupter:
         self.resent = 0
         self.stuck_rounds = 0
         self.gave_up = False
+        self.raise_site = None
 
     def send(self):
         self.drv.open = False
@@ -156,14 +204,17 @@ class Interrupter:
         starts_after = [e for e in H.events if e[1] == "start" and self.phase_seq is not None and e[0] > self.phase_seq]
         main_stack = " ".join(stacks.get("MainThread", []))
         mech = "hang-after-interrupt" if self.phase_seq is not None else "hang"
-        if "shutdown" in main_stack and ":put" in main_stack and main_stack.rstrip().endswith("__enter__"):
+        rs = self.raise_site
+        if ("shutdown" in main_stack and ":put" in main_stack and main_stack.rstrip().endswith("__enter__")
+                and rs is not None and rs.in_condition_enter_of_queue()):
             # the caller is blocked acquiring the run queue's mutex inside shutdown(): it holds that mutex itself, because the
-            # KeyboardInterrupt was raised inside threading.Condition.__enter__ (a Python-level wrapper) after the lock was taken
+            # KeyboardInterrupt was raised inside threading.Condition.__enter__ (a Python-level wrapper, entered from queue.py) after the
+            # lock was taken. Only this call site is the known finding; any other way of leaving the mutex locked is a violation.
             mech = "interrupt-left-queue-mutex-locked"
         abort.abort_with({
             "status": "violation", "mechanism": mech,
             "detail": ("after the interrupt was handled and the gate re-opened, run never finished: every engine thread is parked in an untimed wait"
-                       f" (starts after the interrupt was handled: {[e[2] for e in starts_after][:6]})"),
+                       f" (starts after the interrupt was handled: {[e[2] for e in starts_after][:6]}; KeyboardInterrupt first raised in {rs.site if rs else None})"),
             "witness": {"stacks": stacks, "history": H.compact_history(300), "k": self.k, "position": self.position,
                         "main_stack_at_phase": self.main_stack_at_phase},
             "counters": {"interrupts_sent": 1, "hangs": 1},
@@ -210,9 +261,12 @@ def one_interrupt(desc, build, k, position):
     in_flight_at_raise = None
     I.drv.start()
     surfaced_outside = False
+    RS = RaiseSite()
+    I.raise_site = RS
     try:
         try:
-            result = ctx["run"](progress)
+            with RS:
+                result = ctx["run"](progress)
             returned = True
         except BaseException as e:
             exc = e
@@ -232,7 +286,7 @@ def one_interrupt(desc, build, k, position):
         except KeyboardInterrupt:
             I.drv.run_done = True
             I.drv.stop()
-    info = {"k": k, "position": position, "phase": I.phase_kind, "resent": I.resent, "sent": I.sent_seq is not None, "exc": type(exc).__name__ if exc else None}
+    info = {"raise_site": RS.site, "k": k, "position": position, "phase": I.phase_kind, "resent": I.resent, "sent": I.sent_seq is not None, "exc": type(exc).__name__ if exc else None}
     if I.sent_seq is None:
         return None, None, dict(info, note="call index never reached"), ctx
     # ---- verdicts
@@ -442,6 +496,7 @@ def run_case(desc):
     bad = mech = None
     witness = None
     sample = None
+    sites = set()
     positions = [("start", k) for k in range(1, N + 1)] + [("steady", k) for k in range(1, N + 1)] + [("end", k) for k in range(1, N + 1)]
     if desc.get("tier") == "quick" and len(positions) > 24:
         keep = {("start", 1), ("steady", 1), ("start", 2), ("steady", N), ("start", N), ("end", 1), ("end", N)}
@@ -461,6 +516,8 @@ def run_case(desc):
         counters["late_exit_threads"] += info.get("late_exit_threads") or 0
         counters["interrupts_dropped_by_interpreter_and_resent"] = counters.get("interrupts_dropped_by_interpreter_and_resent", 0) + (info.get("resent") or 0)
         counters["handled_during_pool_startup"] += int(bool(info.get("handled_during_pool_startup")))
+        if info.get("raise_site"):
+            sites.add("%s:%s<-%s" % (info["raise_site"][0], info["raise_site"][1], ":".join(info["raise_site"][2] or ("?",))))
         H = ctx["H"]
         started = {e[2] for e in H.events if e[1] == "start"}
         if info.get("phase") and len(started) < N:
@@ -492,7 +549,7 @@ def run_case(desc):
             bad, mech = f"[SIGINT at {position} of call #{k} of {N}, W={desc['W']}, {desc['sched']}] {b}", m
             witness = {"plan": ctx["describe"](100), "history": H.compact_history(400), "interrupt": info}
             break
-    res = {"status": "ok", "counters": counters, "nontrivial": counters["handled_with_calls_in_flight_and_pending"] > 0,
+    res = {"status": "ok", "counters": counters, "sets": {"keyboardinterrupt_first_raised_in": sorted(sites)}, "nontrivial": counters["handled_with_calls_in_flight_and_pending"] > 0,
            "sig": hashlib.sha1(("\n".join(ctx["describe"](100)) + f"|{desc['W']}|{desc['sched']}|{desc['mode']}").encode()).hexdigest()[:16]}
     if sample and (seed % 6 == 0):
         res["sample"] = sample
